@@ -95,9 +95,9 @@ class Report:
         return path
 
     def known_finding(self, fid, what):
-        line = f"KNOWN-FINDING: property={self.prop} {fid} {what}"
-        if line not in self.known:
-            self.known.append(line)
+        if any(k.startswith(f"KNOWN-FINDING: property={self.prop} {fid} ") for k in self.known):
+            return
+        self.known.append(f"KNOWN-FINDING: property={self.prop} {fid} {what}")
 
     def finish(self):
         self.cov["known_findings_seen"] = self.known
